@@ -47,6 +47,8 @@ type session struct {
 	blocks []blockRec // blocks processed successfully or attempted, in order (cause analysis)
 	retry  bool       // a `fault retry` happened: memory/database divergence is measured, not judged
 	okCnt  int
+	base   map[int]int // owner -> nonce expected next when the case started / the recipient was seeded
+	adds   map[int]int // owner -> parsed ValidatorAdded events processed since then
 }
 
 func (s *session) out(op, obs string) {
@@ -65,7 +67,7 @@ func openDisk(dir string) basedb.Database {
 }
 
 func newSession(run *hx.Run, emit bool, disk bool, extra string) *session {
-	s := &session{run: run, emit: emit}
+	s := &session{run: run, emit: emit, base: map[int]int{}, adds: map[int]int{}}
 	if disk {
 		d, err := os.MkdirTemp("", "verif-registry-")
 		must(err)
@@ -196,19 +198,41 @@ func (s *session) checkMemDBViews(when, mv, dbv string) {
 	s.run.Violate(sig, fmt.Sprintf("%s: memory shares %s self=%s, a restarted process would see %s self=%s", when, memS, memSelf, dbS, dbSelf), s.lines...)
 }
 
+func markerOf(dbv string) string {
+	i := strings.Index(dbv, "]M=")
+	j := strings.Index(dbv[i:], "W[")
+	return dbv[i+3 : i+j]
+}
+
 func (s *session) block(num uint64, evs []*event) blockResult {
+	before := markerOf(dbView(s.raw))
 	res := s.p.processBlock(num, evs)
 	s.blocks = append(s.blocks, blockRec{num, evs})
 	st := res.status
-	if st == "failed" || st == "crashed" {
-		panic("harness: unexpected failure without fault injection: " + st)
-	}
 	op := fmt.Sprintf("block %d%s", num, tokens(evs))
+	if st == "failed" || st == "crashed" {
+		// no fault was injected, yet the handler returned an error: reported as a disagreement with the model
+		// (which knows no such failure); the node would exit, so a new process takes over
+		dbv := dbView(s.raw)
+		s.out(op, fmt.Sprintf("%s out=%s tasks=%s trace=%s mem=%s db=%s", st, res.out, res.tasks, res.trace, memView(s.p), dbv))
+		s.run.Tag("block:failed-without-fault")
+		if markerOf(dbv) != before {
+			s.run.Violate("C12/marker-advanced-by-a-block-that-failed", fmt.Sprintf("block %d returned an error, yet the stored marker went from %s to %s", num, before, markerOf(dbv)), s.lines...)
+		}
+		s.reboot()
+		return res
+	}
 	mv, dbv := memView(s.p), dbView(s.raw)
 	s.out(op, fmt.Sprintf("%s out=%s tasks=%s trace=%s mem=%s db=%s", st, res.out, res.tasks, res.trace, mv, dbv))
 	if st == "ok" {
 		s.okCnt++
 		s.checkMemDBViews(fmt.Sprintf("after block %d", num), mv, dbv)
+		for _, e := range evs {
+			if e.Kind == "VA" {
+				s.adds[e.Owner]++
+			}
+		}
+		s.checkNonces(fmt.Sprintf("after block %d", num), dbv)
 	}
 	s.run.Tag("block:" + st)
 	s.run.Seen(st + ":" + res.out + ":" + res.trace)
@@ -254,6 +278,31 @@ func (s *session) fault(kind string, atReal, atModel, kmAt int, num uint64, evs 
 	return
 }
 
+// oracle "the nonce counts every add attempt exactly once" (mod 2^16), evaluated on the stored recipients
+func (s *session) checkNonces(when, dbv string) {
+	if s.retry {
+		return
+	}
+	i := strings.Index(dbv, "]R[")
+	j := strings.Index(dbv[i+3:], "]")
+	stored := map[int]int{}
+	if body := dbv[i+3 : i+3+j]; body != "" {
+		for _, rec := range strings.Split(body, ";") {
+			f := strings.Split(rec, ":")
+			if f[2] != "-" {
+				stored[atoi(f[0])] = (atoi(f[2]) + 1) % 65536
+			}
+		}
+	}
+	for o := 1; o <= nAddr; o++ {
+		want := (s.base[o] + s.adds[o]) % 65536
+		if stored[o] != want {
+			s.run.Violate("C11/nonce-does-not-count-add-attempts", fmt.Sprintf("%s: owner %d is expected to sign nonce %d next, but %d ValidatorAdded events were processed since it stood at %d", when, o, stored[o], s.adds[o], s.base[o]), s.lines...)
+			return
+		}
+	}
+}
+
 func (s *session) restart() {
 	s.reboot()
 	mv, dbv := memView(s.p), dbView(s.raw)
@@ -289,6 +338,10 @@ func (s *session) seedrec(owner, fee, nonce int) {
 	}
 	_, err := s.p.ns.SaveRecipientData(nil, rd)
 	must(err)
+	s.base[owner], s.adds[owner] = 0, 0
+	if nonce >= 0 {
+		s.base[owner] = (nonce + 1) % 65536
+	}
 	s.out(fmt.Sprintf("seedrec %d %d %s", owner, fee, ns), "ok "+s.state())
 }
 
@@ -511,7 +564,7 @@ func caseC12(run *hx.Run, r *hx.Rng, caseNo int) {
 	nb := len(counts)
 	diskPct := 2
 	if run.Tier == "thorough" {
-		diskPct = 8
+		diskPct = 1
 	}
 	for bi := 0; bi < nb; bi++ {
 		var specs []faultSpec
@@ -540,6 +593,36 @@ func caseC12(run *hx.Run, r *hx.Rng, caseNo int) {
 					run.Violate(sig, fmt.Sprintf("fault %s in block #%d (write %d / km %d, hit %s after %s): final %s ; uninterrupted %s", fs.kind, bi, fs.atReal, fs.kmAt, c.hit, c.prev, got, refFinal), s.lines...)
 				}
 				run.Tag("c12:fault-run")
+			}
+			s.close()
+		}
+		// measurement (outside the property's fault model, which covers writes / key-manager calls / commit): a READ
+		// error of validateOperators' OperatorsExist is wrapped into a MalformedEventError, i.e. swallowed
+		if bi == nb-1 {
+			s := newSession(run, false, false, "")
+			k := -1
+			for _, st := range plan {
+				if !st.blk {
+					s.doItem(*st.it)
+					continue
+				}
+				k++
+				if k == bi {
+					s.p.ctl.clearFault()
+					s.p.ctl.readAt = 0
+				}
+				res := s.p.processBlock(st.num, st.evs)
+				if k == bi && s.p.ctl.fired {
+					bump(run, "read_error_runs")
+					if res.status == "ok" {
+						bump(run, "read_error_swallowed_block_committed")
+					}
+				}
+				s.p.ctl.clearFault()
+			}
+			s.reboot()
+			if k >= 0 && c12Obs(s) != refFinal {
+				bump(run, "read_error_final_state_differs_from_run_without_error")
 			}
 			s.close()
 		}
